@@ -45,6 +45,9 @@ type Script struct {
 	// the keys the HTTP transport itself uses for the outcome of a unary call ("x-grpc-status" saying code
 	// Spoof-1, "x-grpc-details"). Application metadata never changes the outcome the caller sees.
 	Spoof int `json:",omitempty"`
+	// StaticMD: the handler passes the same metadata objects (package-level "static headers") on every
+	// call instead of fresh ones; what one call does with them must not show up in the next
+	StaticMD bool `json:",omitempty"`
 }
 
 // RecvRes is one client-side RecvMsg result.
@@ -133,6 +136,12 @@ func scriptService(s *Script, o *Obs, mu *sync.Mutex) *Service {
 		SetHeader(metadata.MD) error
 		SendHeader(metadata.MD) error
 	}
+	var mdCache []metadata.MD
+	if s.StaticMD {
+		for _, op := range s.HOps {
+			mdCache = append(mdCache, op.MD.MD())
+		}
+	}
 	runOps := func(ctx context.Context, stream grpc.ServerStream) {
 		if s.Spoof > 0 {
 			md := metadata.Pairs("x-grpc-status", fmt.Sprintf("%d:spoofed by handler metadata", s.Spoof-1), "x-grpc-details", "CgF4EgF5")
@@ -144,26 +153,30 @@ func scriptService(s *Script, o *Obs, mu *sync.Mutex) *Service {
 				grpc.SetTrailer(ctx, md)
 			}
 		}
-		for _, op := range s.HOps {
+		for i, op := range s.HOps {
 			var err error
+			opMD := op.MD.MD()
+			if s.StaticMD {
+				opMD = mdCache[i]
+			}
 			switch op.Op {
 			case "sethdr":
 				if stream != nil {
-					err = stream.SetHeader(op.MD.MD())
+					err = stream.SetHeader(opMD)
 				} else {
-					err = grpc.SetHeader(ctx, op.MD.MD())
+					err = grpc.SetHeader(ctx, opMD)
 				}
 			case "sendhdr":
 				if stream != nil {
-					err = stream.SendHeader(op.MD.MD())
+					err = stream.SendHeader(opMD)
 				} else {
-					err = grpc.SendHeader(ctx, op.MD.MD())
+					err = grpc.SendHeader(ctx, opMD)
 				}
 			case "settlr":
 				if stream != nil {
-					stream.SetTrailer(op.MD.MD())
+					stream.SetTrailer(opMD)
 				} else {
-					err = grpc.SetTrailer(ctx, op.MD.MD())
+					err = grpc.SetTrailer(ctx, opMD)
 				}
 			case "send":
 				err = stream.SendMsg(resps[op.Msg])
@@ -255,6 +268,29 @@ func runScript(s *Script, name string, copts carrierOpts) *Obs {
 	defer car.Close()
 	runScriptOn(s, car.Conn, o, &mu)
 	return o
+}
+
+// runScriptRepeat executes the script n times in a row on one carrier (same server, same channel, same
+// handler object) and returns what each call observed.
+func runScriptRepeat(s *Script, name string, copts carrierOpts, n int) []*Obs {
+	o := &Obs{Carrier: name}
+	var mu sync.Mutex
+	svc := scriptService(s, o, &mu)
+	car := newCarrier(name, newServiceDesc(), svc, copts)
+	defer car.Close()
+	var out []*Obs
+	for i := 0; i < n; i++ {
+		runScriptOn(s, car.Conn, o, &mu)
+		mu.Lock()
+		snap := *o
+		*o = Obs{Carrier: name}
+		mu.Unlock()
+		out = append(out, &snap)
+		if snap.Stalled != "" || len(snap.Panics) > 0 {
+			break
+		}
+	}
+	return out
 }
 
 func runScriptOn(s *Script, conn grpc.ClientConnInterface, o *Obs, mu *sync.Mutex) {
